@@ -41,14 +41,16 @@ def run(ctx):
     sub = type(ctx)(prog, ctx.prop, ctx.tier, ctx.depth)
     c15.r5(sub)
     for r in sub.results:
-        if r['key'].startswith('record:'):
+        if r['key'].startswith('record:') or r['key'] == 'ring-modulus-matches-writer':
             r['rule'] = 'R4'
             ctx.results.append(r)
     sub = type(ctx)(prog, ctx.prop, ctx.tier, ctx.depth)
-    c07.r2(sub)
+    H = c07.r2(sub)
     c07.r6(sub)
+    c07.r1(sub, H)
     for r in sub.results:
-        if r['key'].startswith('step-') or r['key'].startswith('space_free:') or r['key'] == 'length-at-offset-0':
+        # open-margin: "every write of at most the requested size succeeds" needs a ring that has room for it
+        if r['key'].startswith('step-') or r['key'].startswith('space_free:') or r['key'] in ('length-at-offset-0', 'open-margin'):
             r['rule'] = 'R5'
             ctx.results.append(r)
     r7(ctx)
